@@ -80,14 +80,16 @@ def numeric_reference(rng, fault, root, n, sch, position=None):
     raise ValueError(fault)
 
 
-def place(rng, position, ref, root, n):
-    """boolean atom that uses numeric reference `ref` at the given kind of position"""
+def place(rng, position, ref, root, n, other_array=None):
+    """boolean atom that uses numeric reference `ref` at the given kind of position; other_array is a
+    numeric array reference rooted elsewhere (own message vs alias) to index into"""
     def F(name):
         return ('field', root, name)
     if position == 'top':
         return ('bin', gen.pick(rng, ('>', '<=', '=')), ref, A.num('0'))
     if position == 'index':
-        return ('bin', '>', ('index', F(f'qy{n}'), ref), A.num('0'))
+        arr = other_array if (other_array is not None and rng.random() < 0.6) else F(f'qy{n}')
+        return ('bin', '>', ('index', arr, ref), A.num('0'))
     if position == 'range-bound':
         rg = ('range', A.num('0'), ref, False, rng.random() < 0.5) if rng.random() < 0.5 else ('range', ref, A.num('9'), False, False)
         return ('bin', 'in', A.num('1'), rg)
@@ -152,7 +154,20 @@ def run(ctx):
         fault = gen.pick(rng, FAULTS) if rng.random() < 0.6 else None
         position = gen.pick(rng, POSITIONS)
         ref, needle = numeric_reference(rng, fault, root, n, ext, position)
-        atom = place(rng, position, ref, root, n)
+        # an array rooted at the *other* message (alias vs own), to be indexed by the reference under test
+        other_array = None
+        if through_alias:
+            arrs = sorted(k for k, t in schemas[topic][1].items() if t == ('arr', gen.NUM, -1))
+            if arrs:
+                other_array = ('field', A.THIS, arrs[0])
+        elif visible:
+            an = sorted(visible)[0]
+            arrs = sorted(k for k, t in visible[an][1].items() if t == ('arr', gen.NUM, -1))
+            if arrs:
+                other_array = ('field', A.var(an), arrs[0])
+        if other_array is not None and position == 'index':
+            ctx.count('index_across_roots')
+        atom = place(rng, position, ref, root, n, other_array)
         if root != A.THIS:
             # every predicate must still mention its own message: a trivial atom on a numeric own field
             own = sorted(k for k, t in schemas[topic][1].items() if t == gen.NUM)[0]
